@@ -5,8 +5,8 @@ package c20
 import (
 	"encoding/json"
 	"fmt"
-	"os"
 	"math"
+	"os"
 	"reflect"
 	"regexp"
 	"sort"
